@@ -7,7 +7,7 @@ HREL = "hippolyzer/lib/proxy/http_event_manager.py"
 KEY = "hippolyzer.lib.proxy.http_event_manager:MITMProxyEventManager._handle_request"
 
 
-def register_p3(reg, prop):
+def register_p3(reg, prop, instances=None, only_handle_request=False):
     from hippolyzer.lib.proxy.caps import CapType
     o = "Opaque:Any"
     if "MITMProxyEventManager" not in reg.classes:
@@ -21,7 +21,10 @@ def register_p3(reg, prop):
         "cap_data.cap_name.endswith": {"returns": "Bool", "doc": "str.endswith"},
         "cap_data.cap_name.rsplit": {"returns": o, "doc": "str.rsplit"},
         "cap_data.region": {"returns": "Opt[Opaque:Region]", "doc": "weakref deref"},
-        "urllib.parse.urlsplit": {"returns": o, "doc": "url split"},
+        "urllib.parse.urlsplit": {"returns": o, "record_as": "urlsplit", "doc": "url split"},
+        # the request URL is mutable: addons rewrite it. Each read is logged with the number of addon-hook calls made by then.
+        "attr:flow.request.url": {"returns": "Str", "record_as": "read_url", "record_ghost": {"hooks": "ncalls('addon_hook')"},
+                                  "doc": "current request URL (addons may have rewritten it)"},
         "urllib.parse.urlunsplit": {"returns": o, "doc": "url unsplit"},
         "list": {"returns": o, "doc": "list()"},
         "mitmproxy.http.Response.make": {"returns": "Opaque:Response", "record_as": "make_response", "record_result": True, "doc": "synthetic response"},
@@ -35,7 +38,8 @@ def register_p3(reg, prop):
         "CapData": {"returns": "Opaque:CapData", "ignore_args": True, "doc": "cap data"},
         "print": {"doc": "console"},
     }
-    for nm, tier, cs in (("@eq-branch", "quick", {"cap_data": "not is_none(cap_data) and val(cap_data).cap_name == 'EventQueueGet'"}), ("", "thorough", {})):
+    for nm, tier, cs in (instances or (("@eq-branch", "quick", {"cap_data": "not is_none(cap_data) and val(cap_data).cap_name == 'EventQueueGet'"}),
+                                       ("", "thorough", {}))):
         reg.add_fn(FnContract(
             key=KEY + nm, relpath=HREL, tier=tier, case_split=cs,
             qualname="MITMProxyEventManager._handle_request", cls="MITMProxyEventManager", prop=prop,
@@ -44,6 +48,10 @@ def register_p3(reg, prop):
             loops={"for known_cap_name, (known_cap_type, known_cap_url) in cap_data.region().caps.items()": {
                 "elem_sort": "Tuple[Str,Tuple[Opaque:CapType,Str]]", "inv": ["True"]}},
             ensures=[
+                # (C15) a rewritten request survives: whenever the request URL is taken apart to build the URL actually requested
+                # (wrapper capabilities), what is taken apart is the URL as it is after the addon hook ran, not an earlier reading
+                "implies(ncalls('urlsplit') >= 2, called_with('read_url', lambda result, hooks: hooks == 1 and "
+                "called_with('urlsplit', lambda arg0: arg0 == result)))",
                 "ncalls('cache_lookup') <= 1",
                 # the replay: looked up under the ack the request carries; a hit is served from the cache, with that very payload
                 "implies(ncalls('cache_lookup') == 1, called_with('parse', lambda result: called_with('cache_lookup', lambda arg0: arg0 == result['ack'])))",
@@ -56,6 +64,8 @@ def register_p3(reg, prop):
             ],
             frame=None))
         alias_loops_by_order(reg.fns[KEY + nm])
+    if only_handle_request:
+        return
 
 
     # Region registration from announcing events: a region already known under that circuit address (or, failing that, under that
